@@ -133,6 +133,18 @@ func gen(tier string) []proto.Item {
 				items = append(items, proto.Item{Scn: s, Class: fmt.Sprintf("%s/late-duplicate-of-ttl%d", v, t)})
 			}
 		}
+		if vi := proto.Info(v); !vi.V6 {
+			// the destination's answers arrive in IPv4 datagrams whose own header carries options (a labelled network, record
+			// route): it has answered, the TTLs still to come are not probed
+			for _, w := range []int{6, 15} {
+				s := proto.Scn{Variant: v, First: 1, Last: 12, Dest: 3, IPIDBase: 1000, EchoBase: 50, TimeoutMs: 300, DelayMs: 10}
+				s.Hops = map[int]proto.HopSpec{}
+				for t := 3; t <= 12; t++ {
+					s.Hops[t] = proto.HopSpec{IPOptWords: w}
+				}
+				items = append(items, proto.Item{Scn: s, Class: fmt.Sprintf("%s/destination-answers-with-ip-options-%dw", v, w)})
+			}
+		}
 		if k := proto.Info(v).Kind; k == "udp4" || k == "udp6" {
 			// the UDP destination rejects the probes with host / administratively-prohibited unreachable (a host firewall): it
 			// has answered all the same, the TTLs still to come are not probed
